@@ -69,50 +69,10 @@ Print Assumptions C19_marker_prefix_every_start_string.
 Example C19_marker_code_is_delimiter_aware : autoindent_delimiter_aware = true.
 Proof. reflexivity. Qed.
 
-(* (3) lineprefix.  The translated filter is one of two shapes (flag regenerated from filters.py):
-   `lineprefix_legacy` = '\n'.join(prefix + l if l else l for l in s.splitlines())   -- what /repo has now; it DROPS the final
-   terminator of the value and rewrites every terminator to LF: finding F-JINJA-LINEPREFIX-TERMINATOR (with trim_blocks + lstrip_blocks
-   the template line after a marker block is glued to its last line), patch design_notes/C19_lineprefix_terminator_fix.patch;
-   `lineprefix_keep`   = ''.join(prefix + l if l.splitlines()[0] else l for l in s.splitlines(True))   -- the patched shape.
-   LEGACY shape: split at "\n", the output consists of exactly the lines str.splitlines()
-   finds in the input, each non-empty one prefixed, empty ones unchanged.  Consequences spelled out below:
-   every terminator (CR LF, CR, VT, FF, FS, GS, RS, NEL, LS, PS) becomes one LF and the final terminator is dropped. *)
-Theorem C19_lineprefix_spec :
-  forall (s p : str),
-    forallb (fun c => negb (c =? 10)) p = true ->
-    py_splitlines s <> [] ->
-    split_lf (lineprefix_legacy s p) = map (prefix_line p) (py_splitlines s).
-Proof. exact lineprefix_spec_lemma. Qed.
-Print Assumptions C19_lineprefix_spec.
-
-Theorem C19_lineprefix_empty : forall p : str, lineprefix_legacy [] p = [] /\ (forall s, py_splitlines s = [] -> s = []).
-Proof. intros p. split; [reflexivity | exact splitlines_nil_inv]. Qed.
-Print Assumptions C19_lineprefix_empty.
-
-Theorem C19_lineprefix_lines_have_no_terminator :
-  forall s : str, Forall (fun l => forallb (fun c => negb (is_linebreak c)) l = true) (py_splitlines s).
-Proof. exact splitlines_no_break. Qed.
-Print Assumptions C19_lineprefix_lines_have_no_terminator.
-
-(* the final line terminator of the filtered text is dropped (whatever terminator it is) *)
-Theorem C19_lineprefix_drops_final_terminator :
-  forall (s p : str) (b : N),
-    s <> [] -> is_linebreak (last s 0) = false -> is_linebreak b = true ->
-    lineprefix_legacy (s ++ [b]) p = lineprefix_legacy s p.
-Proof. exact lineprefix_final_terminator. Qed.
-Print Assumptions C19_lineprefix_drops_final_terminator.
-
-(* the legacy shape does NOT preserve the text (finding F-JINJA-LINEPREFIX-TERMINATOR: final terminator dropped, CR LF -> LF);
-   lead: moves to History/C19_history.v together with the other lineprefix_legacy theorems when the patch lands *)
-Theorem C19_lineprefix_preserves_text_refuted :
-  exists s : str, lineprefix_legacy s [] <> s.
-Proof. exists [97; 13; 10; 98; 10]. vm_compute. discriminate. Qed.
-Print Assumptions C19_lineprefix_preserves_text_refuted.
-
-Example C19_lineprefix_example :
-  lineprefix_legacy [97; 13; 10; 10; 98; 11; 99; 10] [32; 32] = [32; 32; 97; 10; 10; 32; 32; 98; 10; 32; 32; 99].
-Proof. vm_compute. reflexivity. Qed.
-
+(* (3) lineprefix.  The filter in /repo is the terminator-keeping shape (fix "lineprefix_terminator", landed):
+   ''.join(prefix + l if l.splitlines()[0] else l for l in soft_unicode(s).splitlines(True)).
+   The theorems about the legacy shape ('\n'.join over splitlines(): final terminator dropped, terminators rewritten to LF --
+   finding F-JINJA-LINEPREFIX-TERMINATOR, fixed) live in History/C19_history.v. *)
 (* which shape the code in /repo has, and the facts about the fixes already landed *)
 Theorem C19_lineprefix_code_is : do_lineprefix = lineprefix_m lineprefix_keepends.
 Proof. exact do_lineprefix_is. Qed.
@@ -121,7 +81,19 @@ Print Assumptions C19_lineprefix_code_is.
 Example C19_lineprefix_soft_unicode_live : lineprefix_soft_unicode = true.
 Proof. reflexivity. Qed.
 
-(* PATCHED shape: the output is the concatenation of the input's lines WITH their terminators (which concatenate back to the input:
+(* regressions of the two fixes landed with 5a15038 flip these obligations *)
+Example C19_lineprefix_keepends_live : lineprefix_keepends = true.
+Proof. reflexivity. Qed.
+
+Example C19_marker_minus_guard_live : autoindent_minus_guard = true.
+Proof. reflexivity. Qed.
+
+(* hence the filter in /repo IS the terminator-keeping one: identity for an empty prefix, nothing dropped or rewritten *)
+Theorem C19_lineprefix_live_text_preserved : forall s : str, do_lineprefix s [] = s.
+Proof. exact lineprefix_keep_text_preserved. Qed.
+Print Assumptions C19_lineprefix_live_text_preserved.
+
+(* the output is the concatenation of the input's lines WITH their terminators (which concatenate back to the input:
    nothing dropped, no terminator rewritten), each preceded by the prefix iff its content is non-empty; with an empty prefix the
    filter is the identity *)
 Theorem C19_lineprefix_keep_spec :
